@@ -67,7 +67,7 @@ func Main(args []string) {
 		}
 		// anything that arrives although the model did not expect it
 		for {
-			o := verifhook.Next(300 * time.Microsecond)
+			o := verifhook.Next(0)
 			if o.Kind == "timeout" {
 				break
 			}
